@@ -101,6 +101,10 @@ for _p in ("C10", "C11", "C12"):
     PROPS[_p]["engines"] = [_kani.engine()]
     PROPS[_p]["checker_extra"] = "cargo kani --harness proofs_<f>::h_<f>_<fn> in build/kani_fiat (verbatim fiat.rs via #[path])"
 
+from vx import kani_lazy as _kani_lazy
+PROPS["C13"]["engines"] = [_kani_lazy.engine()]
+PROPS["C13"]["checker_extra"] = "cargo kani --harness proofs::h_lazy_from_{encoding,element} in build/kani_lazy (verbatim lazy.rs via #[path])"
+
 # bounded stand-ins (thorough tier only; never counted as proved): probes of /verif/replay_runner against the real crate
 _F = [("ark", "field.fq"), ("ark", "field.fr"), ("ark", "field.fp"), ("min", "field.fq"), ("min", "field.fr"), ("min", "field.fp")]
 PROBES = {
@@ -115,7 +119,7 @@ PROBES = {
     "C09": [("ark", "curve.sqrt"), ("min", "min.all")],
     "C10": _F, "C11": _F,
     "C12": _F + [("ark", "curve.encode"), ("ark", "curve.decode"), ("ark", "curve.ops"), ("ark", "curve.mul"), ("ark", "curve.elligator"), ("min", "min.all")],
-    "C13": [("r1cs", "r1cs.d6")], "C14": [("r1cs", "r1cs.hints")], "C16": [("ark", "bls")],
+    "C13": [("r1cs", "r1cs.d6"), ("r1cs", "r1cs.lazy")], "C14": [("r1cs", "r1cs.hints"), ("r1cs", "r1cs.alloc")], "C16": [("ark", "bls")],
 }
 for _p, _l in PROBES.items():
     if _p in PROPS:
@@ -133,8 +137,9 @@ WATCH = {
                 [(f"src/fields/{f}/u32/wrapper.rs", [("min", f"field.{f}")]) for f in ("fq", "fr", "fp")]),
     "C12": dict([(f"src/fields/{f}/u32/wrapper.rs", [("min", f"field.{f}")]) for f in ("fq", "fr", "fp")] +
                 [(f"src/fields/{f}/u32/fiat.rs", [("min", f"field.{f}")]) for f in ("fq", "fr", "fp")]),
-    "C13": {"src/ark_curve/r1cs/inner.rs": [("r1cs", "r1cs.d6")], "src/ark_curve/r1cs/element.rs": [("r1cs", "r1cs.d6")], "src/ark_curve/r1cs/lazy.rs": [("r1cs", "r1cs.d6")]},
-    "C14": {"src/ark_curve/r1cs/inner.rs": [("r1cs", "r1cs.hints")], "src/ark_curve/r1cs/element.rs": [("r1cs", "r1cs.hints")]},
+    "C13": {"src/ark_curve/r1cs/inner.rs": [("r1cs", "r1cs.d6"), ("r1cs", "r1cs.lazy")], "src/ark_curve/r1cs/element.rs": [("r1cs", "r1cs.lazy")],
+            "src/ark_curve/r1cs/lazy.rs": [("r1cs", "r1cs.lazy")], "src/ark_curve/r1cs/ops.rs": [("r1cs", "r1cs.lazy")]},
+    "C14": {"src/ark_curve/r1cs/inner.rs": [("r1cs", "r1cs.hints"), ("r1cs", "r1cs.alloc")], "src/ark_curve/r1cs/element.rs": [("r1cs", "r1cs.alloc")]},
 }
 for _p, _w in WATCH.items():
     if _p in PROPS:
@@ -143,4 +148,4 @@ for _p, _w in WATCH.items():
 NOT_APPLICABLE = {
     "C15": "circuit shape / pinned Groth16 keys: the subject is the hidden ark_relations constraint store and binary key files; no pre/postcondition on a /repo function can state matrix equality across runs or SNARK verification (DESIGN.md C15)",
 }
-FIX_NOTE = "f4c29b3 7a29832 e58bcf9 db08dd6 b6643e6 5514f4e 35a968d"
+FIX_NOTE = "f4c29b3 7a29832 e58bcf9 db08dd6 b6643e6 5514f4e 35a968d dc3044d"
